@@ -1,6 +1,7 @@
 import Wx.Glob.C11Inst
 import Wx.Glob.GlobThm
 import Wx.Glob.GlobPath2
+import Wx.Glob.GlobPath3
 /-! # C11 — Path filter verdicts follow the documented glob, ignore and extension rules
 
 > For the default path filterer an event without paths always passes and an event naming an explicitly watched file
@@ -100,6 +101,14 @@ theorem extension_line_rejects_by_component (e orig root path : List Char) (he :
     (hcs : ∀ x ∈ cs, Comp x) (hstrip : strip root path = join cs) (isDir : Bool) :
     matchedOrParents root [extGlob orig e] path isDir ≠ .none ↔ ∃ c ∈ cs, ∃ stem, c = stem ++ '.' :: e :=
   ext_ignores_iff e orig root path he cs hne hcs hstrip isDir
+
+open Sp.Glob in
+/-- `dir/` at the level of paths: a directory called `name` and everything below a directory called `name` — never a FILE
+    called `name` -/
+theorem directory_line_rejects_directories_only (n orig root path : List Char) (hn : Clean n) (cs : List (List Char)) (hne : cs ≠ [])
+    (hcs : ∀ x ∈ cs, Comp x) (hstrip : strip root path = join cs) (isDir : Bool) :
+    matchedOrParents root [dirGlob orig n] path isDir ≠ .none ↔ (isDir = true ∧ ∃ h : cs ≠ [], cs.getLast h = n) ∨ ∃ c ∈ cs.dropLast, c = n :=
+  dir_line_ignores_iff n orig root path hn cs hne hcs hstrip isDir
 
 /-- non-vacuity: `Clean` text exists, and the rules say what one expects on it (kernel-evaluated) -/
 example : Sp.Glob.Clean "target".toList ∧ Sp.Glob.Clean "rs".toList :=
